@@ -25,6 +25,7 @@ func runC14(r *engine.Run) {
 	r.Rule("AGREE-typecode", "GetSerializationPrefix (type -> code) and CreateNode (code -> constructor) are inverse on the four node types")
 	r.Rule("AGREE-origin", "OriginTracker.Write and OriginTracker.Read use the same (byte order, field) sequence; writeNodePrefix and CreateNode agree on the header order (one code byte, then the origin tracker, then the body)")
 	r.Rule("AGREE-fields", "for each node type the number of separators written by encode (with constant loop multiplicity) equals the number of separator scans in Decode, the fields are written and read in the same order, child keys are hex on both sides and the node key raw on both sides, and the only fields that may contain a separator byte (value bytes, raw node key) are written after the last separator")
+	r.Rule("FRESH-node", "see C03: no trie operation edits in place a node object that the store or the node cache handed out: the memory store would then hold that object under the hash it had before the edit (an entry that is not addressed by its own hash)")
 	r.NotDec = append(r.NotDec, "byte-exact round trip for every value (value-level)")
 	orderStamp(r, "KEY-own-hash")
 	keyOwnHash(r)
@@ -33,6 +34,7 @@ func runC14(r *engine.Run) {
 	agreeFields(r)
 	copyValue(r, "COPY-value")
 	lockstep(r)
+	freshNode(r, "C14")
 }
 
 func keyOwnHash(r *engine.Run) {
